@@ -199,7 +199,7 @@ package exec
 //@ func exec.(*bigmachineExecutor).Run
 //@   requires b != nil && task != nil && b.sess != nil && task.Pragma != nil && procsPragma(task.Pragma) >= 1 && regOK()
 //@   requires invocation-graph: b.invocations != nil && b.invocationDeps != nil && invGraphOK(b)
-//@   may_panic
+//@   requires result-arguments-known: has(b.invocations, task.Invocation.Index) || forall(i, 0, len(task.Invocation.Args), implies(hastype(task.Invocation.Args[i], *Result), unbox(task.Invocation.Args[i], *Result) != nil && has(b.invocations, unbox(task.Invocation.Args[i], *Result).invIndex)))
 //@   flag chan_nonnil
 //@   flag trust_nil_safety
 //@   ensures  request-clamped: implies(offerCalls > old(offerCalls), offerCalls == old(offerCalls) + 1 && lastOfferProcs == ite(exclusivePragma(task.Pragma) || procsPragma(task.Pragma) > lastOfferMgr.machprocs, lastOfferMgr.machprocs, procsPragma(task.Pragma)))
@@ -577,7 +577,7 @@ package exec
 
 //@ func exec.(*bigmachineExecutor).addInvocation (inv) (added, err)
 //@   requires b != nil && b.invocations != nil && b.invocationDeps != nil && invGraphOK(b)
-//@   may_panic
+//@   panics_if !has(b.invocations, inv.Index) && exists(i, 0, len(inv.Args), hastype(inv.Args[i], *Result) && (unbox(inv.Args[i], *Result) == nil || !has(b.invocations, unbox(inv.Args[i], *Result).invIndex)))
 //@   ensures  first-time: added == !old(has(b.invocations, inv.Index))
 //@   ensures  recorded: has(b.invocations, inv.Index)
 //@   ensures  graph-ok: invGraphOK(b)
@@ -587,6 +587,7 @@ package exec
 //@   loop 1 invariant b.invocations != nil && b.invocationDeps != nil && !has(b.invocations, inv.Index)
 //@   loop 1 invariant substituted: forall(i, 0, range_idx, ite(hastype(old(inv.Args[i]), *Result), hastype(inv.Args[i], invocationRef) && unbox(inv.Args[i], invocationRef).Index == unbox(old(inv.Args[i]), *Result).invIndex, inv.Args[i] == old(inv.Args[i])))
 //@   loop 1 invariant rest-untouched: forall(i, range_idx, len(inv.Args), inv.Args[i] == old(inv.Args[i]))
+//@   loop 1 invariant results-known: forall(i, 0, range_idx, implies(hastype(old(inv.Args[i]), *Result), unbox(old(inv.Args[i]), *Result) != nil && has(b.invocations, unbox(old(inv.Args[i]), *Result).invIndex)))
 //@   loop 1 invariant deps-recorded: forall(i, 0, range_idx, implies(hastype(old(inv.Args[i]), *Result), has(b.invocationDeps[inv.Index], unbox(old(inv.Args[i]), *Result).invIndex)))
 //@   loop 1 invariant forall(k, uint64, has(b.invocations, k) == old(has(b.invocations, k)) && b.invocations[k] == old(b.invocations[k]))
 //@   loop 1 invariant forall(k, uint64, forall(j, uint64, implies(has(b.invocationDeps[k], j), has(b.invocations, j) && (has(b.invocations, k) || k == inv.Index))))
